@@ -526,3 +526,135 @@ func c19QueueLengths(p *Prog, r *Report) {
 	r.Count("c19.queue_constructions", n)
 	r.Floor(R, "c19.queue_constructions", 20)
 }
+
+// c19OptionsReadAtUse: C19.9 — a long-lived goroutine (accept loop, per-pipe sender or
+// receiver) reads an option field inside its loop, each time it is about to apply it, not
+// once before the loop: otherwise a value that SetOption accepts (and GetOption reports)
+// after the goroutine started never takes effect for later connections/messages.
+func c19OptionsReadAtUse(p *Prog, r *Report, R string) {
+	r.Describe(R, "goroutine loops read option fields inside the loop (per connection / per message), never as a snapshot taken before the loop")
+	// option fields: every field some SetOption method stores a value-derived datum into
+	optField := map[string]bool{}
+	for _, fn := range p.Funcs {
+		if fn.Name() != "SetOption" || fn.Signature.Recv() == nil {
+			continue
+		}
+		for _, paths := range p.optionFieldMap(fn) {
+			for _, pth := range paths {
+				if strings.HasPrefix(pth, "recv.") && !strings.Contains(pth[5:], ".") {
+					if n := recvNamed(fn); n != nil {
+						optField[TypeKey(n)+"."+pth[5:]] = true
+					}
+				}
+			}
+		}
+	}
+	gt := p.goTargets()
+	n := 0
+	for _, fn := range p.Funcs {
+		if len(gt[fn]) == 0 {
+			continue
+		}
+		EachInstr(fn, func(in ssa.Instruction) {
+			u, ok := in.(*ssa.UnOp)
+			if !ok || u.Op != token.MUL {
+				return
+			}
+			k := loadFieldKey(u)
+			if k == "" || !optField[k] {
+				return
+			}
+			n++
+			if _, body := loopBody(u.Block()); body != nil {
+				r.OK(R, p.FuncName(fn)+"/"+k+"@loop", p.InstrPos(u), "read inside the loop")
+				return
+			}
+			// read outside any loop: fine unless the value is used inside a loop
+			usedInLoop := ""
+			var walk func(v ssa.Value, d int)
+			seen := map[ssa.Value]bool{}
+			walk = func(v ssa.Value, d int) {
+				if d > 6 || seen[v] || v.Referrers() == nil {
+					return
+				}
+				seen[v] = true
+				for _, ref := range *v.Referrers() {
+					if _, body := loopBody(ref.Block()); body != nil {
+						if _, isPhi := ref.(*ssa.Phi); !isPhi {
+							usedInLoop = p.InstrPos(ref)
+						}
+					}
+					if rv, ok := ref.(ssa.Value); ok {
+						walk(rv, d+1)
+					}
+					if st, ok := ref.(*ssa.Store); ok {
+						if al, ok := st.Addr.(*ssa.Alloc); ok {
+							walk(al, d+1)
+						}
+					}
+				}
+			}
+			walk(u, 0)
+			r.Check(usedInLoop == "", R, p.FuncName(fn)+"/"+k, p.InstrPos(u), "not a pre-loop snapshot used in the loop", "the option field "+k+" is read once before the goroutine's loop and the snapshot is used inside it (at "+usedInLoop+"): a value set later is accepted and reported but never applied")
+		})
+	}
+	// a snapshot taken by the spawning function and captured by the goroutine's closure
+	for _, fn := range p.Funcs {
+		EachInstr(fn, func(in ssa.Instruction) {
+			g, ok := in.(*ssa.Go)
+			if !ok {
+				return
+			}
+			mc, ok := g.Call.Value.(*ssa.MakeClosure)
+			if !ok {
+				return
+			}
+			cl, ok := mc.Fn.(*ssa.Function)
+			if !ok {
+				return
+			}
+			hasLoop := false
+			for _, b := range cl.Blocks {
+				if h, _ := loopBody(b); h != nil {
+					hasLoop = true
+				}
+			}
+			if !hasLoop {
+				return
+			}
+			for i, b := range mc.Bindings {
+				var loads []*ssa.UnOp
+				switch x := b.(type) {
+				case *ssa.UnOp:
+					loads = append(loads, x)
+				case *ssa.Alloc:
+					if refs := x.Referrers(); refs != nil {
+						for _, ref := range *refs {
+							if st, ok := ref.(*ssa.Store); ok && st.Addr == x {
+								if u, ok := st.Val.(*ssa.UnOp); ok {
+									loads = append(loads, u)
+								}
+							}
+						}
+					}
+				}
+				for _, u := range loads {
+					if u.Op != token.MUL {
+						continue
+					}
+					k := loadFieldKey(u)
+					if k == "" || !optField[k] {
+						continue
+					}
+					n++
+					name := "?"
+					if i < len(cl.FreeVars) {
+						name = cl.FreeVars[i].Name()
+					}
+					r.Bad(R, p.FuncName(cl)+"/captured:"+k, p.InstrPos(u), "the option field "+k+" is read once by "+p.FuncName(fn)+" and the snapshot ("+name+") is captured by the goroutine's loop: a value set after the goroutine started is accepted and reported but never applied to later connections/messages")
+				}
+			}
+		})
+	}
+	r.Count("c19.option_reads_in_goroutines", n)
+}
